@@ -1,6 +1,7 @@
 (* RepairProofs5.v — the clean-up of the files still open, finalize, and convert_to_archive
    as a whole on any prefix of a well-formed block stream: it returns Ok, and its result is
    described by the records of `cutb`. *)
+From MLA Require Import Limit.
 From MLA Require Import Base Stream Blocks Writer Repair RepairSpec RepairPure
   RepairProofs1 RepairProofs2 RepairProofs3 RepairProofs4.
 From Coq Require Import ZifyBool ZifyNat ZifyN.
@@ -38,6 +39,7 @@ Proof.
 Qed.
 
 Section Whole.
+  Context {LIM : Limit}.
   Variable S : Stream.
   Variable w : bytes.
   Variable R : st S -> N -> Prop.
@@ -101,6 +103,9 @@ Section Whole.
   Theorem repair_spec bl trailer fuel s0 :
     wf_blocks bl -> (In BEnd bl \/ trailer = []) -> prefix w (body bl ++ trailer) ->
     R s0 0 -> (N.to_nat (len w) < fuel)%nat ->
+    (* the footer of the repaired archive fits the bincode limit and its u32 length field:
+       finalize did not fail with SerializationError (see repair_ser_error) *)
+    repair fuel s0 w_init <> Err EDeser ->
     exists out obl ft,
       repair fuel s0 w_init =
         Ok (if snd (cutb bl (len w)) then FEndOfData else FEofNextBlock,
@@ -112,7 +117,7 @@ Section Whole.
       history out /\
       Forall2 same (frun [] (fst (cutb bl (len w)))) (files_of obl).
   Proof.
-    intros [Hwf Hnum] Ht Hp HR0 Hfuel.
+    intros [Hwf Hnum] Ht Hp HR0 Hfuel Hne.
     assert (HA : At S w R s0 w) by (exists 0; split; [exact HR0 | apply dropN_0]).
     destruct (block_loop_spec S w R HR FNMAX CACHE HFN HCACHE T_START T_CONTENT T_EOA T_EOF Htags H H_len
                 trailer bl fuel s0 w_init [] [] [] [] [] [] w
@@ -129,9 +134,17 @@ Section Whole.
         - exfalso. apply find_id_none_notin in E. apply E. now apply in_map. }
       rewrite Hff. auto. }
     cbn [app] in Hc, Hfo1.
-    destruct (Wrep_finalize FNMAX T_START T_CONTENT T_EOA T_EOF H out1 obl1 W1)
-      as (out2 & Hfin & F1 & F2 & F3 & F4 & F5).
+    assert (Hended : forall f, In f (files_of obl1) -> f_ended f = true).
     { rewrite Hfo1. intros f Hf. apply in_map_iff in Hf. destruct Hf as (g & <- & _). reflexivity. }
+    assert (Hfit : len (ser_footer_map (w_footer out1)) <= lim /\ len (ser_footer_map (w_footer out1)) < 2 ^ 32).
+    { destruct (N.le_gt_cases (len (ser_footer_map (w_footer out1))) lim) as [Hl|Hl];
+        [destruct (N.lt_ge_cases (len (ser_footer_map (w_footer out1))) (2 ^ 32)) as [H32|H32]; [auto|]|].
+      - exfalso. destruct (Wrep_finalize_unfit FNMAX T_START T_CONTENT T_EOA T_EOF H out1 obl1 W1 Hended (or_intror H32)) as (o' & Ho').
+        apply Hne. unfold Repair.repair. rewrite Hloop. cbn [rp_ids rp_out]. rewrite Hc, Ho'. reflexivity.
+      - exfalso. destruct (Wrep_finalize_unfit FNMAX T_START T_CONTENT T_EOA T_EOF H out1 obl1 W1 Hended (or_introl Hl)) as (o' & Ho').
+        apply Hne. unfold Repair.repair. rewrite Hloop. cbn [rp_ids rp_out]. rewrite Hc, Ho'. reflexivity. }
+    destruct (Wrep_finalize FNMAX T_START T_CONTENT T_EOA T_EOF H out1 obl1 W1 Hended (proj1 Hfit) (proj2 Hfit))
+      as (out2 & Hfin & F1 & F2 & F3 & F4 & F5).
     exists out2, obl1, (w_footer out1).
     split; [|repeat split; try assumption].
     - unfold Repair.repair. rewrite Hloop. cbn [rp_ids rp_out]. rewrite Hc, Hfin. reflexivity.
